@@ -1598,6 +1598,15 @@ class WriteTool(BaseTool):
                         # Best-effort: if repair fails, preserve original validation_errors
                         pass
 
+                # Issue #190: severity "warning" findings (W001, UNKNOWN_FIELDS::WARN) are advisory
+                # and must not by themselves make the document INVALID.
+                advisory = [err for err in validation_errors if err.severity == "warning"]
+                if advisory:
+                    result["validation_warnings"] = [
+                        {"code": err.code, "message": err.message, "field": err.field_path} for err in advisory
+                    ]
+                validation_errors = [err for err in validation_errors if err.severity != "warning"]
+
                 if validation_errors:
                     result["validation_status"] = "INVALID"
                     result["validation_errors"] = [
